@@ -1246,20 +1246,31 @@ func (ctx *RenderContext) getItem(container, index interface{}) (interface{}, er
 			// Try to find the key
 			var mapKey reflect.Value
 
+			// A null / undefined index selects nothing
+			if index == nil {
+				return nil, nil
+			}
+
 			// Convert the index to the map's key type if possible
 			keyType := v.Type().Key()
 			indexValue := reflect.ValueOf(index)
 
-			if indexValue.Type().ConvertibleTo(keyType) {
-				mapKey = indexValue.Convert(keyType)
-			} else {
-				// Try string conversion for the key
-				strKey := ctx.ToString(index)
-				if reflect.TypeOf(strKey).ConvertibleTo(keyType) {
-					mapKey = reflect.ValueOf(strKey).Convert(keyType)
-				} else {
-					return nil, nil // Key type mismatch
+			switch {
+			case indexValue.Type().AssignableTo(keyType):
+				mapKey = indexValue
+			case keyType.Kind() == reflect.String:
+				// String keys are compared with the text of the index (Go's own
+				// int-to-string conversion would turn 65 into "A")
+				mapKey = reflect.ValueOf(ctx.ToString(index)).Convert(keyType)
+			case keyType.Kind() >= reflect.Int && keyType.Kind() <= reflect.Float64:
+				// Numeric keys: the index must be a number (or numeric text)
+				num, ok := ctx.toNumber(index)
+				if !ok {
+					return nil, nil
 				}
+				mapKey = reflect.ValueOf(num).Convert(keyType)
+			default:
+				return nil, nil // Key type mismatch
 			}
 
 			mapValue := v.MapIndex(mapKey)
